@@ -50,16 +50,21 @@ def _fjsp_part(ctx, rng, torch, nx, coll, count=True):
     n_cmp = 0
     for kind in ("fjsp", "jssp"):
         for mno in (True, False):
-            for rep in range(nx):
-                gp = C.fjsp_gen_params(rng, kind, big=nx > 1)
+            for rep in range(nx + 1):
+                long_h = rep == nx      # last round: long horizon -- the clock passes INIT_FINISH = 9999 (X and/or its batch-mates)
+                gp = C.fjsp_long_params(rng, kind) if long_h else C.fjsp_gen_params(rng, kind, big=nx > 1)
                 torch.manual_seed(rng.randrange(2 ** 31))
                 env = C.fjsp_env(kind, mno, gp)
-                B = rng.randint(3, 4)
+                B = 3 if long_h else rng.randint(3, 4)
                 td0 = env.generator(batch_size=[B])
                 gen = [C.F._inst_of_td(td0, b) for b in range(B)]
                 x = rng.randrange(B)
                 X = C.fjsp_trim(gen[x])
                 strangers = [C.fjsp_trim(g) for k, g in enumerate(gen) if k != x]
+                if long_h:
+                    strangers[0] = C.fjsp_trim(C.fjsp_short_copy(rng, strangers[0]))      # a short batch-mate next to the long rows
+                    if count:
+                        ctx.count("c04_%s_long_horizon_instances" % kind)
                 if strangers:
                     slow = dict(strangers[-1])
                     slow["proc"] = [[v * 3 for v in r] for r in slow["proc"]]
